@@ -140,13 +140,20 @@ def run(ctx):
     #    each policy also as base of promise_extra_storage<T, policy>; reusable_storage objects constructed, moved,
     #    move-assigned and destroyed between frames; the owner of reusable_buffer_storage's vector resizing, shrinking,
     #    clearing, moving out and swapping it between frames
-    c = {"Policies": ALL, "ExPolicies": ALL, "MaxCreate": 4 if ctx.quick else 6, "MaxCreateEx": 3 if ctx.quick else 5,
-         "MaxOverlap": 3, "Grain": '"call"', "Fixed": FX, "MaxMoves": 2 if ctx.quick else 3, "MaxOwner": 2 if ctx.quick else 3,
-         "StackInits": "{0, 200}" if ctx.quick else "{0, 200, 201}",
-         "BufferInits": "{0, 200}", "PlaceInits": "{300}" if ctx.quick else "{300, 200}"}
+    inits = {"StackInits": "{0, 200}" if ctx.quick else "{0, 200, 201}", "BufferInits": "{0, 200}",
+             "PlaceInits": "{300}" if ctx.quick else "{300, 200}"}
+    c = {"Policies": ALL, "ExPolicies": ALL, "MaxCreate": 4 if ctx.quick else 5, "MaxCreateEx": 3 if ctx.quick else 4,
+         "MaxOverlap": 3, "Grain": '"call"', "Fixed": FX, "MaxMoves": 2 if ctx.quick else 3, "MaxOwner": 2 if ctx.quick else 3}
+    c.update(inits)
     run_cfg(ctx, rp, "seq", "Storage_seq.cfg", c, "seq",
             ["Create", "CreateB", "Complete", "Teardown", "NewObj", "MoveCtor", "MoveAssign", "Drop",
              "OwnerResize", "OwnerShrink", "OwnerClear", "OwnerMoveOut", "OwnerSwap"])
+    if not ctx.quick:
+        # longer create/complete sequences of the plain policies (no layer, no moves, no owner actions)
+        c = {"Policies": ALL, "ExPolicies": "{}", "MaxCreate": 6, "MaxCreateEx": 0, "MaxOverlap": 3, "Grain": '"call"',
+             "Fixed": FX, "MaxMoves": 0, "MaxOwner": 0}
+        c.update(inits)
+        run_cfg(ctx, rp, "seq_deep", "Storage_seq.cfg", c, "seq", ["Create", "Complete", "Teardown"])
 
     # 2. two threads on one reusable_storage_mtsafe, scheduling points = atomic operations on _busy
     c = {"MaxCreate": 4 if ctx.quick else 5, "MaxOverlap": 3, "Classes": "{1, 2, 3}", "Grain": '"atomic"', "Fixed": FX}
